@@ -5,6 +5,7 @@ import z3
 
 from . import ops
 from .core import Inf, SymTensor, Unsupported, cur, simp_int, zint, const_tensor, mk, cast, zbool, is_z3, norm_dim
+from .core import zreal
 from .ops import DType, DTYPES, DT_CANON, dtype_cls, T, binop, unop, reduce, ew
 from .td import SymTD
 
@@ -576,6 +577,21 @@ def _mse_loss(a, b, reduction="mean"):
 
 
 FN["mse_loss"] = _mse_loss
+
+
+def _huber_loss(a, b, reduction="mean", delta=1.0):
+    """F.huber_loss (documented definition): 0.5 d^2 if |d| <= delta else delta (|d| - 0.5 delta), d = input - target."""
+    d = binop("sub", a, b)
+    dl = zreal(delta)
+    h = ew(lambda x: z3.If(z3.And(x <= dl, x >= -dl), x * x / 2, dl * (z3.If(x >= 0, x, -x) - dl / 2)), [d], out_dtype="f")
+    if reduction == "mean":
+        return _mean(h)
+    if reduction == "sum":
+        return reduce("sum", h)
+    return h
+
+
+FN["huber_loss"] = _huber_loss
 
 
 # ---- split / flip / random sources
